@@ -6,6 +6,7 @@ package main
 // from the latest descriptor. Case kinds (see lean/Oracle/C13.lean):
 //   C13.hist  za rf streams steps | long fresh
 //   C13.phist cache streams steps | long fresh      (PartitionRingWatcher)
+//   C13.conc  round za n phases | mismatches         (concurrent readers; judged only, not reproducible from the seed)
 //   C13.tables                                       (InstanceDesc proto fields vs RingCompare fields)
 
 import (
@@ -17,9 +18,12 @@ import (
 	"os"
 	"path/filepath"
 	"reflect"
+	"runtime"
 	"sort"
 	"strconv"
 	"strings"
+	"sync"
+	"sync/atomic"
 	"time"
 
 	"github.com/go-kit/log"
@@ -582,10 +586,167 @@ func c13PHist(e *env, r *rng) {
 	e.emit("C13.phist", itoa(cacheSize), strings.Join(st, "|"), strings.Join(steps, "|"), strings.Join(longA, "|"), strings.Join(freshA, "|"))
 }
 
+// c13Conc: concurrent readers. A long-lived ring (caches on) is read by K goroutines looping over
+// ShuffleShard / ShuffleShardWithLookback for a handful of (identifier, size) pairs while the main
+// goroutine pushes bursts of topology-changing updates through updateRingState with tiny random gaps.
+// After every burst the readers are stopped (quiescence) and, for every pair, the long-lived ring's
+// answer is compared with a fresh cache-less ring built from the LATEST descriptor. The interleaving
+// (and hence a failure) is not reproducible from the seed; the descriptors and the pairs are.
+func c13Conc(e *env, r *rng, round int) {
+	done := e.begin("C13.conc round " + itoa(round))
+	defer done()
+	za := r.chance(1, 2)
+	g := &c12Gen{r: r, used: map[uint32]bool{}}
+	nz := 1 + r.intn(3)
+	zones := append([]string{}, c12ZoneNames[:nz]...)
+	n := 4 + r.intn(5)
+	newInst := func() ring.InstanceDesc {
+		i := g.newInst(pick(r, zones), 1+r.intn(3), false, false)
+		i.Timestamp = c13Base
+		i.RegisteredTimestamp = c13Base - 5000 - int64(r.intn(100))
+		return i
+	}
+	cur := ring.NewDesc()
+	for k := 0; k < n; k++ {
+		i := newInst()
+		cur.Ingesters[i.Id] = i
+	}
+	mkCfg := func(cacheOff bool) ring.Config {
+		return ring.Config{ReplicationFactor: 1, ZoneAwarenessEnabled: za, HeartbeatTimeout: c13Timeout, SubringCacheDisabled: cacheOff}
+	}
+	long, err := ring.VerifNewRing(mkCfg(false), c13Shallow(cur), nil)
+	if err != nil {
+		panic(err)
+	}
+	type pair struct {
+		id   string
+		size int
+		lb   bool
+	}
+	pairs := []pair{{"t0", 1, false}, {"t1", 2, false}, {"t0", 2, false}, {"t1", 3, false}, {"t0", 2, true}, {"t1", 1, true}}
+	period := 60 * time.Second
+	nowT := time.Unix(c13Base, 0)
+	query := func(rg *ring.Ring, p pair) string {
+		var sub ring.ReadRing
+		if p.lb {
+			sub = rg.ShuffleShardWithLookback(p.id, p.size, period, nowT)
+		} else {
+			sub = rg.ShuffleShard(p.id, p.size)
+		}
+		rs, err := sub.GetAllHealthy(c13AllOp)
+		if err != nil {
+			return "-"
+		}
+		return c13EncInsts(rs.Instances, false)
+	}
+	mutate := func(d *ring.Desc) *ring.Desc {
+		nd := c13Shallow(d)
+		ids := c12SortedIDs(nd)
+		switch r.intn(4) {
+		case 0:
+			ni := newInst()
+			nd.Ingesters[ni.Id] = ni
+		case 1:
+			if len(ids) > 3 {
+				delete(nd.Ingesters, pick(r, ids))
+			} else {
+				ni := newInst()
+				nd.Ingesters[ni.Id] = ni
+			}
+		case 2:
+			x := pick(r, ids)
+			i := nd.Ingesters[x]
+			i.ReadOnly = !i.ReadOnly
+			i.ReadOnlyUpdatedTimestamp = c13Base - 1000
+			nd.Ingesters[x] = i
+		default:
+			x := pick(r, ids)
+			i := nd.Ingesters[x]
+			ni := g.newInst(i.Zone, 1+r.intn(3), false, false)
+			g.nextID--
+			i.Tokens = ni.Tokens
+			nd.Ingesters[x] = i
+		}
+		return nd
+	}
+	phases := 25
+	const K = 4
+	var mism []string
+	spin := 0
+	for ph := 0; ph < phases; ph++ {
+		// the burst is prepared in advance so that the gaps between the updates are tiny
+		burst := make([]*ring.Desc, 2+r.intn(3))
+		d := cur
+		for j := range burst {
+			d = mutate(d)
+			burst[j] = d
+		}
+		gaps := make([]int, len(burst))
+		for j := range gaps {
+			gaps[j] = r.intn(400)
+		}
+		var stop atomic.Bool
+		var iters atomic.Int64
+		var wg sync.WaitGroup
+		for k := 0; k < K; k++ {
+			wg.Add(1)
+			go func(k int) {
+				defer wg.Done()
+				for j := k; !stop.Load(); j++ {
+					_ = query(long, pairs[j%len(pairs)])
+					iters.Add(1)
+				}
+			}(k)
+		}
+		for iters.Load() < K {
+			runtime.Gosched()
+		}
+		for j, nd := range burst {
+			long.VerifUpdateRingState(c13Shallow(nd))
+			for x := 0; x < gaps[j]; x++ {
+				spin += x
+			}
+			if gaps[j]%3 == 0 {
+				runtime.Gosched()
+			}
+		}
+		target := iters.Load() + 2*K
+		for iters.Load() < target {
+			runtime.Gosched()
+		}
+		stop.Store(true)
+		wg.Wait()
+		cur = burst[len(burst)-1]
+		fresh, err := ring.VerifNewRing(mkCfg(true), cloneDesc(cur), nil)
+		if err != nil {
+			panic(err)
+		}
+		for pi, p := range pairs {
+			a, b := query(long, p), query(fresh, p)
+			if a != b {
+				mism = append(mism, "phase"+itoa(ph)+":pair"+itoa(pi)+":"+p.id+"/"+itoa(p.size)+":long="+a+"=>fresh="+b)
+			}
+		}
+	}
+	_ = spin
+	zaS := "0"
+	if za {
+		zaS = "1"
+	}
+	out := "-"
+	if len(mism) > 0 {
+		if len(mism) > 3 {
+			mism = mism[:3]
+		}
+		out = strings.Join(mism, " ")
+	}
+	e.emit("C13.conc", itoa(round), zaS, itoa(n), itoa(phases), out)
+}
+
 func runC13(e *env) {
-	nH, nP := 2500, 800
+	nH, nP, nC := 2500, 800, 24
 	if !e.quick {
-		nH, nP = 40000, 8000
+		nH, nP, nC = 40000, 8000, 400
 	}
 	r := newRng(e.seed, 1)
 	for i := 0; i < nH; i++ {
@@ -594,6 +755,10 @@ func runC13(e *env) {
 	r = newRng(e.seed, 2)
 	for i := 0; i < nP; i++ {
 		c13PHist(e, r)
+	}
+	r = newRng(e.seed, 3)
+	for i := 0; i < nC; i++ {
+		c13Conc(e, r, i)
 	}
 }
 
